@@ -49,6 +49,18 @@ MomentBalance(r) ==
 Resultant(r) == \A k \in 1..r.fd : Abs(SumOver(Pts(r), LAMBDA p : F(r, p, k)) - r.expect[k]) <= TolF(r)
 \* a point load assembles to exactly its values at the loaded points and zero elsewhere
 PointLoadExact(r) == \A n \in 1..Len(r.f) : r.f[n] = r.expectf[n]
+\* ... whatever the construction / update history and options: plain load = the values of the last update; ring load (axisymmetric
+\* flag) = 2 pi r times these values (r = r.r8 / 8 exact, TwoPiS = 2 pi at scale 2^20); zero at every other point
+TwoPiS == 6588397
+PointLoadValues(r) ==
+  \A p \in Pts(r) : \A k \in 1..r.fd :
+     LET idx == {n \in 1..Len(r.pts) : r.pts[n] = p}
+         want == IF idx = {} THEN 0
+                 ELSE LET n == CHOOSE n \in idx : TRUE  v == r.vals[(n - 1) * r.fd + k] IN
+                      IF r.axi THEN (v * r.r8[n] * TwoPiS) \div 8 ELSE v * 1048576
+     IN Abs(F(r, p, k) - want) <= (IF r.axi THEN 16 ELSE 0)
+\* no force along a skipped axis of a multi-point item
+SkippedAxesFree(r) == \A k \in ToSet(r.skipped) : \A p \in Pts(r) : F(r, p, k) = 0
 \* follower pressure on flat-sided (bilinear) faces: sum f = - p * sum of the vector areas, and the vector area of a
 \* bilinear quadrilateral is half the cross product of its diagonals (exact); r.faces[n] = its 4 point ids (zero-based)
 Cross3(u, v) == <<u[2] * v[3] - u[3] * v[2], u[3] * v[1] - u[1] * v[3], u[1] * v[2] - u[2] * v[1]>>
@@ -76,6 +88,8 @@ MassPSD(r) == \A v \in [1..Len(r.block) -> {-1, 0, 1}] :
 Clauses(r) == CASE r.kind = "tangent" -> IF Admissible(r) THEN {"Tangent", "SymmetricTangent"} ELSE {}
                 [] r.kind = "multiplier" -> {"MultiplierVector", "MultiplierMatrix"}
                 [] r.kind = "balance" -> {"ForceBalance"} \cup (IF r.moment THEN {"MomentBalance"} ELSE {})
+                                         \cup (IF "skipped" \in DOMAIN r THEN {"SkippedAxesFree"} ELSE {})
+                [] r.kind = "pointload2" -> {"PointLoadValues"}
                 [] r.kind = "resultant" -> {"Resultant"}
                 [] r.kind = "pointload" -> {"PointLoadExact"}
                 [] r.kind = "pressure" -> {"PressureResultant"}
@@ -85,6 +99,7 @@ Holds(c, r) == CASE c = "Tangent" -> Tangent(r) [] c = "SymmetricTangent" -> Sym
                  [] c = "ForceBalance" -> ForceBalance(r) [] c = "MomentBalance" -> MomentBalance(r)
                  [] c = "Resultant" -> Resultant(r) [] c = "PointLoadExact" -> PointLoadExact(r)
                  [] c = "PressureResultant" -> PressureResultant(r)
+                 [] c = "PointLoadValues" -> PointLoadValues(r) [] c = "SkippedAxesFree" -> SkippedAxesFree(r)
                  [] c = "MassSymmetric" -> MassSymmetric(r) [] c = "MassTotal" -> MassTotal(r)
                  [] c = "MassCrossDirectionsZero" -> MassCrossDirectionsZero(r) [] c = "MassPSD" -> MassPSD(r)
 Applicable(r) == Clauses(r)
